@@ -1,6 +1,9 @@
 (* NonVacuous/CommonDev.v — a concrete session on the mandated-command device, shared by the examples for the
-   full-stack refinement theorem restated in C13, C15 and C16. *)
-From VF Require Import Base Gen_Errors ErrSpec Fmt Status Status_proofs Contrib ContribSpec Contrib_proofs.
+   full-stack refinement theorem restated in C13, C15 and C16; and (second half) a session of program-message ASTs in
+   free spelling for the all-messages refinement theorems (full_stack_all_messages, full_stack_all_messages_exact). *)
+From Coq Require Import String.
+From VF Require Import Base Gen_Errors ErrSpec Fmt Lexer Grammar Status Status_proofs Contrib ContribSpec Contrib_proofs MessageSpec ContribMeaning.
+From VF.NonVacuous Require Import CommonMsg.
 From VF.NonVacuous Require Import Common.
 Open Scope N_scope.
 
@@ -34,3 +37,91 @@ Proof. vm_compute. reflexivity. Qed.
 
 Print Assumptions ex_op_message.
 Print Assumptions ex_us_renderable.
+
+(* ------------------------------------------------------------------ *)
+(* a session of well-formed program messages (Grammar.v ASTs) in free spelling, for the theorems
+   full_stack_all_messages / full_stack_all_messages_exact restated in C13, C15 and C16 *)
+(* ------------------------------------------------------------------ *)
+Local Open Scope string_scope. Local Open Scope list_scope. Local Open Scope N_scope.
+Definition un (h : header) (args : list datum) : munit :=
+  mkUnit h (match args with [] => [] | _ :: _ => [32] end) (map (fun d => (d, [], [])) args).
+Definition units (l : list munit) : list (munit * list byte) := map (fun u => (u, [])) l.
+
+(* two earlier messages: "*ESE 32;*ERR -113;*ESR?" (fails in its second unit; *ESR? is never run), then, with MAV set,
+   ":SYST:ERR:COUN?;*STB?;*SRE 16<NL>" *)
+Definition dm1 : msg :=
+  mkMsg [] (units [un (hd_ false true ["ESE"] false) [dnum "32"]; un (hd_ false true ["ERR"] false) [dneg "113"];
+                   un (hd_ false true ["ESR"] true) []]) false.
+Definition dm2 : msg :=
+  mkMsg [] (units [un (hd_ true false ["SYST"; "ERR"; "COUN"] true) []; un (hd_ false true ["STB"] true) [];
+                   un (hd_ false true ["SRE"] false) [dnum "16"]]) true.
+Definition ex_session : list (bool * msg) := [(false, dm1); (true, dm2)].
+(* the message under test: short forms in lower case, a relative header (ptr, in the context OPERation left by the first
+   unit), the default node NEXT omitted, a wrong argument (300 does not fit *ESE's u8), and a unit that is never reached *)
+Definition dm3 : msg :=
+  mkMsg [] (units [un (hd_ false false ["stat"; "oper"; "enab"] false) [dnum "5"]; un (hd_ false false ["ptr"] false) [dnum "3"];
+                   un (hd_ true false ["syst"; "err"] true) []; un (hd_ false true ["ese"] false) [dnum "300"];
+                   un (hd_ false true ["ese"] true) []]) false.
+(* a query on a command without query form, after a query that wrote something *)
+Definition dm_stray : msg := mkMsg [] (units [un (hd_ false true ["ESE"] true) []; un (hd_ false true ["CLS"] true) []]) false.
+
+Example dm_texts :
+  render_msg dm1 = bs "*ESE 32;*ERR -113;*ESR?" /\ render_msg dm2 = bs ":SYST:ERR:COUN?;*STB?;*SRE 16" ++ [10] /\
+  render_msg dm3 = bs "stat:oper:enab 5;ptr 3;:syst:err?;*ese 300;*ese?" /\ render_msg dm_stray = bs "*ESE?;*CLS?".
+Proof. vm_compute. auto. Qed.
+Lemma dm3_wf : wf_msg dm3 = true.
+Proof. vm_compute. reflexivity. Qed.
+Lemma dm_stray_wf : wf_msg dm_stray = true.
+Proof. vm_compute. reflexivity. Qed.
+Example ex_session_wf : forallb (fun m => wf_msg (snd m)) ex_session = true.
+Proof. vm_compute. reflexivity. Qed.
+
+(* what the messages mean, operation level (ContribMeaning.message_ops) *)
+Definition ex_us3 : list sop := [SReg Oper (RWrEnable 5); SReg Oper (RWrPtr 3); SErrNext; SFail (std_error DataOutOfRange)].
+Definition ex_us_stray : list sop := [SRdEse; SFail (std_error UndefinedHeader)].
+Example ex_session_ops :
+  map (fun m => message_ops (snd m)) ex_session
+  = [Some [SWrEse 32; SFail (std_error UndefinedHeader)]; Some [SErrCount; SRdStb; SWrSre 16]].
+Proof. vm_compute. reflexivity. Qed.
+Lemma dm3_ops : message_ops dm3 = Some ex_us3.
+Proof. vm_compute. reflexivity. Qed.
+Lemma dm_stray_ops : message_ops dm_stray = Some ex_us_stray.
+Proof. vm_compute. reflexivity. Qed.
+
+(* the device state after the two earlier messages: -113 queued (the second message only counted the queue: its
+   answer was "1;52<NL>"), ESR = command error, ESE 32, SRE 16 *)
+Definition ex_mid : dev := mkDev [std_error UndefinedHeader] 32 32 16 reg_default reg_default None.
+Lemma ex_session_mid : session_msgs dev_init ex_session = ex_mid.
+Proof. vm_compute. reflexivity. Qed.
+Example ex_session_answers :
+  op_message dev_init false [SWrEse 32; SFail (std_error UndefinedHeader)]
+  = (mkDev [std_error UndefinedHeader] 32 32 0 reg_default reg_default None, [], Some (std_error UndefinedHeader)) /\
+  op_message (mkDev [std_error UndefinedHeader] 32 32 0 reg_default reg_default None) true [SErrCount; SRdStb; SWrSre 16]
+  = (ex_mid, bs "1;52" ++ [10], None).
+Proof. vm_compute. auto. Qed.
+Lemma ex_mid_printable : queue_printable ex_mid = true.
+Proof. vm_compute. reflexivity. Qed.
+
+(* the message under test (MAV set): OPERation enable 5 and positive filter 3 are written, the queued -113 is read
+   back, *ese 300 fails with -222 (queued, ESR gets the execution-error bit: 32 + 16), *ese? is never run; the answer
+   stays in the buffer without terminator *)
+Definition ex_final3 : dev := mkDev [std_error DataOutOfRange] 48 32 16 (mkReg 0 0 5 0 3) reg_default None.
+Lemma ex_op_message3 :
+  op_message ex_mid true ex_us3 = (ex_final3, bs "-113,""Undefined header""", Some (std_error DataOutOfRange)).
+Proof. vm_compute. reflexivity. Qed.
+Lemma dm3_not_stray : stray_separator dm3 = false.
+Proof. vm_compute. reflexivity. Qed.
+
+(* "*ESE?;*CLS?": *ESE? answers 32, the query form of *CLS does not exist: -113 (queued a second time) *)
+Definition ex_final_stray : dev := mkDev [std_error UndefinedHeader; std_error UndefinedHeader] 32 32 16 reg_default reg_default None.
+Lemma ex_op_message_stray : op_message ex_mid true ex_us_stray = (ex_final_stray, bs "32", Some (std_error UndefinedHeader)).
+Proof. vm_compute. reflexivity. Qed.
+Lemma dm_stray_stray : stray_separator dm_stray = true.
+Proof. vm_compute. reflexivity. Qed.
+(* the full stack on the same message leaves "32;" : the unit separator written before the failing query was invoked *)
+Lemma ex_dev_message_stray :
+  dev_message ex_mid true (render_msg dm_stray) = Val (ex_final_stray, bs "32;", Some (std_error UndefinedHeader)).
+Proof. vm_compute. reflexivity. Qed.
+
+Print Assumptions ex_op_message3.
+Print Assumptions ex_dev_message_stray.
